@@ -11,7 +11,7 @@ use crate::{
     math::{Comparison, OptimizationType},
     transformers::standardizer::to_standard_form,
 };
-use indexmap::IndexMap;
+use indexmap::{IndexMap, IndexSet};
 use num_traits::Zero;
 use serde::{Deserialize, Serialize};
 use std::fmt::Display;
@@ -514,9 +514,23 @@ impl LinearModel {
         out.push_str(&format!(" obj: {}\n", objective));
 
         out.push_str("Subject To\n");
+        // generated names must not collide with a name the user wrote
+        let mut used_names: IndexSet<String> = self
+            .constraints
+            .iter()
+            .map(|c| c.name())
+            .filter(|name| !name.is_empty())
+            .collect();
         for (i, c) in self.constraints.iter().enumerate() {
             let name = if c.name().is_empty() {
-                format!("c{}", i + 1)
+                let mut candidate = format!("c{}", i + 1);
+                let mut suffix = 2usize;
+                while used_names.contains(&candidate) {
+                    candidate = format!("c{}_{}", i + 1, suffix);
+                    suffix += 1;
+                }
+                used_names.insert(candidate.clone());
+                candidate
             } else {
                 c.name()
             };
